@@ -327,10 +327,11 @@ def _marg_values(phi, node, tpl):
 def case_class(tpl, evidence):
     """the most suspect input class present in the case (the keys of the inference groups are per class, so that a defect
     of one class can be listed without hiding failures in the healthy core)."""
+    nm = ":named" if tpl["named"] and evidence else ""  # evidence given by state name
     if tclass(tpl) == "cross-inter":
-        return "cross-inter"
+        return "cross-inter" + nm
     if evclass(tpl, evidence) == "interface-evidence":
-        return "interface-evidence"
+        return "interface-evidence" + nm
     if tpl["named"] and evidence:
         return "named-evidence"
     return "core"
@@ -391,7 +392,7 @@ def _ask(inf, case, mode, variables, label, soft):
                 return {"key": f"{fn}:{label}:values",
                         "what": f"{desc}: P({node}){filt} = {vals}, unrolled network gives {[str(want[(x,)]) for x in st[node[0]]]} = {[float(want[(x,)]) for x in st[node[0]]]}"}
         if not names_ok and not soft:
-            soft.append({"key": f"{fn}:result-state-names", "what": f"{desc}: factor for {node} names its states {phi.state_names[phi.variables[0]]}, the model names them {st[node[0]]}"})
+            soft.append({"key": "result-state-names", "what": f"{desc}: factor for {node} names its states {phi.state_names[phi.variables[0]]}, the model names them {st[node[0]]}"})
     return None
 
 
@@ -405,15 +406,19 @@ def check_inference(case):
     label = case_class(tpl, evidence)
     soft = [soft0] if soft0 else []
     nodes = [(v, t) for t in range(T + 1) for v, _ in tpl["vars"] if (v, t) not in evidence]
+    # filtering first: it is healthy for more input classes than smoothing, and a check returns its first failure
+    for node in nodes:
+        r = _ask(inf, case, "forward_inference", [node], label, soft)
+        if r:
+            return r
     for i, node in enumerate(nodes):
-        for mode in (("query", "backward_inference")[i % 2], "forward_inference"):
-            r = _ask(inf, case, mode, [node], label, soft)
-            if r:
-                return r
+        r = _ask(inf, case, ("query", "backward_inference")[i % 2], [node], label, soft)
+        if r:
+            return r
     for t in range(T + 1):
         vs = [n for n in nodes if n[1] == t]
         if len(vs) > 1:
-            for mode in ("query", "forward_inference"):
+            for mode in ("forward_inference", "query"):
                 r = _ask(inf, case, mode, vs[::-1] if t % 2 else vs, label + ":same-slice", soft)
                 if r:
                     return r
